@@ -88,3 +88,12 @@ Fixpoint skip_batches (skip : nat) (l : list nat) : list nat :=
               else b :: skip_batches 0 r
   end.
 Definition batches (n nb pre : nat) : list nat := skip_batches pre (full_batches n nb).
+
+(* _eigsh, solver shift (data space: solver_shift = 1 because LSM^T LSM may have zero eigenvalues which
+   `which="LM"` could not tell from the projected-out directions; signal space: 0):
+     solver_metric = metric if solver_shift == 0.0 else _ShiftedMetric(metric, solver_shift)
+     projected_metric = _ProjectedMetric(solver_metric, projector)          (also when resuming)
+     eigvals = np.real_if_close(eigvals - solver_shift)
+   For an eigen-direction of the operator (eigenvalue lam) orthogonal to the projected-out ones, the solver
+   sees lam + op_shift and the code reports that minus sub_shift. *)
+Definition reported_eigenvalue (op_shift sub_shift lam : Q) : Q := lam + op_shift - sub_shift.
